@@ -111,6 +111,7 @@ def shorten_runs(P, tier):
           R('shorten-hostkinds', 'h_shorten.c', P + (['KS=1', 'KB=1'] if tier == 'thorough' else ['KS=0', 'KB=0']) + ['SEGL=1', 'SFLAGS=(G_SCHEME_REQ|G_AUTH_REQ|G_HOSTKINDS)', 'BFLAGS=(G_SCHEME_REQ|G_AUTH_REQ|G_HOSTKINDS)'], 'S and B with every host kind (reg-name, IPv4, IPv6, IPvFuture; symbolic digits), no path (thorough: <=1 segment)', ['same-authority-relative', 'schemes-differ'], 2400 if tier == 'thorough' else 600),
           R('shorten-query', 'h_shorten.c', P + ['KS=1', 'KB=1', 'SEGL=1', 'SFLAGS=(G_SCHEME_REQ|G_AUTH|G_QUERY|G_FRAG)', 'BFLAGS=(G_SCHEME_REQ|G_AUTH|G_QUERY)'], 'S: scheme [//host] <=1 segment [?q] [#f], B: scheme [//host] <=1 segment [?q] (equal and different queries, empty paths); both modes', ['same-authority-relative', 'schemes-differ'], 600),
           R('shorten-authority-len2', 'h_shorten.c', P + ['KS=0', 'KB=0', 'SEGL=1', 'GEN_COMP_L=2', 'SFLAGS=(G_SCHEME_REQ|G_AUTH_REQ|G_USERINFO|G_PORT)', 'BFLAGS=(G_SCHEME_REQ|G_AUTH_REQ|G_USERINFO|G_PORT)'], 'S and B with user info none/empty/1..2 chars, reg-name of 1..2 chars, port none/empty/1..2 digits (one a prefix of the other), no path', ['same-authority-relative'], 600),
+          R('shorten-hostkinds-port', 'h_shorten.c', P + ['KS=0', 'KB=0', 'SEGL=1', 'SFLAGS=(G_SCHEME_REQ|G_AUTH_REQ|G_HOSTKINDS|G_PORT)', 'BFLAGS=(G_SCHEME_REQ|G_AUTH_REQ|G_HOSTKINDS)'], 'S with every host kind and a port absent / empty / one digit, B with every host kind and no port: same host of every kind, only one side has a port', ['same-authority-relative'], 900),
           R('shorten-nonabsolute', 'h_shorten.c', P + ['KS=1', 'KB=1', 'SEGL=1', 'SFLAGS=(G_SCHEME_OPT|G_AUTH)', 'BFLAGS=(G_SCHEME_OPT|G_AUTH)'], 'S or B without scheme (error codes)', ['non-absolute-rejected'], 300)]
     if tier == 'thorough':
         rs.append(R('shorten-paths-3', 'h_shorten.c', P + ['KS=3', 'KB=3', 'SEGL=1', 'GEN_PATH_COLON', 'SFLAGS=(G_SCHEME_REQ|G_AUTH|G_QUERY)', 'BFLAGS=(G_SCHEME_REQ|G_AUTH|G_QUERY)'], '<=3 segments over [a-z.:], optional queries', ['same-authority-relative'], 7200))
@@ -251,6 +252,8 @@ SPECS['C16'] = {'runs': {
 SPECS['C17'] = {'runs': {
     'quick': [R('roundtrip', 'h_query.c', ['ITEMS=2', 'SEGL=1'], 'lists of 1..2 items, keys/values of 0..1 chars over 1..255, value NULL or not; both compose flags; every int capacity <= required+2', ['round-trip', 'too-large'], 900),
               R('dissect', 'h_query.c', ['MODE_DISSECT', 'NMAX=5'], 'all texts over 1..255 of length 0..5; plus-to-space; four break modes', ['several-items', 'no-items'], 600),
+              R('dissectW', 'h_query.c', ['MODE_DISSECT', 'WIDE', 'NMAX=4'], 'wchar_t variant: all texts over 32-bit values of length 0..4 (reaches one percent triplet next to another character); plus-to-space; four break modes', ['several-items', 'no-items'], 600),
+              R('roundtripW', 'h_query.c', ['WIDE', 'ITEMS=1', 'SEGL=1'], 'wchar_t variant: one item, key/value of 0..1 characters, value NULL or not; both compose flags; every int capacity', ['round-trip', 'too-large'], 600),
               R('arith', 'h_query.c', ['MODE_ARITH', 'ITEMS=3'], 'size arithmetic for 3 items with strlen returning an arbitrary size_t (signed-overflow check on)', ['size-computed', 'size-refused'], 900, opts={'solver_timeout_ms': 3000})],
     'thorough': [R('roundtrip', 'h_query.c', ['ITEMS=2', 'SEGL=1'], 'as quick', ['round-trip'], 1800), R('roundtrip-long', 'h_query.c', ['ITEMS=1', 'SEGL=2'], 'one item, key/value of 0..2 chars', ['round-trip'], 3000), R('roundtripW', 'h_query.c', ['WIDE', 'ITEMS=2', 'SEGL=1'], 'wide', ['round-trip'], 3000),
               R('dissect', 'h_query.c', ['MODE_DISSECT', 'NMAX=7'], 'length 0..7', ['several-items'], 2400),
